@@ -35,7 +35,7 @@ VARIABLES
   pend,      \* the record the running call is persisting
   prev,      \* the in-memory record before the running call (restored when save() fails)
   maxrel,    \* ghost: the latest record whose signature was returned to the caller (Rec0: none yet).  The whole
-             \* history of releases is not kept: as long as ReleaseOK has held at every release the history is
+             \* history of releases is not kept: as long as NoConflictingRelease and Monotone held at every release so far the history is
              \* non-decreasing in (h,r,s) and all releases at the latest (h,r,s) carry maxrel.b, so comparing a new
              \* release with maxrel decides NoConflictingRelease and Monotone for the whole history (induction).
   ncrash, nfail,
